@@ -27,7 +27,7 @@ package filehandler
 //@   arith int
 //@   assigns nothing
 //@   abstracts result == inset(s, name)
-//@   loop 0: invariant len(name) >= 0
+//@   loop 0: invariant len(name) >= 0 && 0 <= level && level + len(name) <= len(old(name))
 //@   loop 0: decreases len(name)
 
 //@ func runner/ptrace/filehandler.(*FileSets).IsWritableFile props C18
